@@ -1,4 +1,173 @@
-import ZtypV.Spec
+/-
+C20 — Decoding memory is bounded by input size.
+
+Model: `ZtypV.View.decodeC` (Model/DecodeCost.lean), the allocation-instrumented twin of the
+view decoder `ZtypV.View.decode` (Model/Decode.lean, validated against /repo/view `Deserialize`):
+next to the result it returns the allocation units the Go code requests on that run, runs that
+end in an error included.  `C20_twin_is_decoder` proves the result component IS `decode`.
+
+Quantities (Model/DecodeCost.lean, structural recursion, no limit and no offset value):
+`footprint t` — fields and vector slots of the type's fixed structure; `maxDepth t` — depth of
+the deepest basic leaf in the type's whole backing tree plus one per nesting level; `nest t` —
+nesting depth of the type expression; `eraseLims t` — `t` with every list/bitlist limit erased.
+
+The flat decoder: `ZtypV.Flat.flatDecodeC` (Model/FlatCost.lean) is the instrumented twin of
+`ZtypV.Flat.flatDecode` (Model/Flat.lean, validated against /repo/codec/decoder.go, tree.ReadRoots…);
+its theorems are at the end of this file (full statement `ZtypV.FlatCostProofs.C20_flat_full`,
+proved).  There the caller-side callbacks (`add()`, `selectFn`) are charged a type constant per
+call, so the type constant `flatFootprint t` multiplies the length term.
+-/
+import ZtypV.Proofs.DecodeCostTop
+import ZtypV.Proofs.FlatCost
 namespace ZtypV.Props.C20
-theorem placeholder : True := trivial
+open ZtypV ZtypV.View ZtypV.DecodeProofs ZtypV.CostProofs
+
+/-- the instrumented twin computes exactly the validated decoder -/
+theorem C20_twin_is_decoder (h : HashFn) (t : Ty) (dr : DR) : (decodeC h t dr).1 = decode h t dr :=
+  decodeC_fst h t dr
+
+/-- C20, view decoder: for EVERY well-formed type (limits arbitrary naturals) and EVERY byte
+    string — accepted or rejected — the units allocated by one decode call are at most
+    `K · (len + footprint t) · (1 + maxDepth t) + C` with `K = 2048`, `C = 0`. -/
+theorem C20_view (h : HashFn) (t : Ty) (bs : Bytes) (hw : t.wf = true) :
+    (decodeC h t (DR.new bs bs.length)).2 ≤ 2048 * (bs.length + footprint t) * (1 + maxDepth t) + 0 :=
+  decodeM_top h t hw bs
+
+/-- the same, with the named bound the driver evaluates -/
+theorem C20_view_costBound (h : HashFn) (t : Ty) (bs : Bytes) (hw : t.wf = true) :
+    (decodeC h t (DR.new bs bs.length)).2 ≤ costBound t bs.length :=
+  decodeM_top h t hw bs
+
+/-- accepted inputs of composite types: no footprint term at all -/
+theorem C20_view_accepted (h : HashFn) (t : Ty) (bs : Bytes) (hw : t.wf = true)
+    (hc : isLeafTy t = false) (n : Node) (dr' : DR)
+    (hr : decode h t (DR.new bs bs.length) = .ok (n, dr')) :
+    (decodeC h t (DR.new bs bs.length)).2 ≤ 1024 * (1 + maxDepth t) * bs.length + 192 :=
+  decodeM_top_ok h t hw hc bs n dr' (by rw [decodeM_res]; exact hr)
+
+/-- limits enter `maxDepth` only through subtree depths: at most 66 per nesting level when all
+    limits / lengths fit a `uint64` (`2^40` included) -/
+theorem C20_maxDepth_le (t : Ty) (hl : lims64 t = true) : maxDepth t ≤ 66 * nest t :=
+  maxDepth_le t hl
+
+/-- `footprint` and `nest` do not see any list / bitlist limit -/
+theorem C20_footprint_nest_limit_free (t : Ty) :
+    footprint (eraseLims t) = footprint t ∧ nest (eraseLims t) = nest t :=
+  ⟨footprint_eraseLims t, nest_eraseLims t⟩
+
+/-- C20, limit-free form: the bound is a function of the input length and of the type WITH ITS
+    LIMITS ERASED only. -/
+theorem C20_no_limit_dependence (h : HashFn) (t : Ty) (bs : Bytes) (hw : t.wf = true)
+    (hl : lims64 t = true) :
+    (decodeC h t (DR.new bs bs.length)).2 ≤
+      2048 * (bs.length + footprint (eraseLims t)) * (1 + 66 * nest (eraseLims t)) := by
+  rw [footprint_eraseLims, nest_eraseLims]
+  refine Nat.le_trans (decodeM_top h t hw bs) ?_
+  exact Nat.mul_le_mul_left _ (by have := maxDepth_le t hl; omega)
+
+/-- in particular: two lists of the same element type get the same bound whatever their limits
+    (`2^40`, `2^64 - 1`, …): a few hostile bytes cannot buy memory proportional to a limit -/
+theorem C20_list_limits (h : HashFn) (e : Ty) (lim lim' : Nat) (bs : Bytes) (hw : e.wf = true)
+    (hle : lims64 e = true) (hl : lim < 2 ^ 64) (hl' : lim' < 2 ^ 64) :
+    (decodeC h (.list e lim) (DR.new bs bs.length)).2 ≤
+        2048 * (bs.length + (1 + footprint e)) * (1 + 66 * (1 + nest e)) ∧
+    (decodeC h (.list e lim') (DR.new bs bs.length)).2 ≤
+        2048 * (bs.length + (1 + footprint e)) * (1 + 66 * (1 + nest e)) := by
+  have key : ∀ l, l < 2 ^ 64 → (decodeC h (.list e l) (DR.new bs bs.length)).2 ≤
+      2048 * (bs.length + (1 + footprint e)) * (1 + 66 * (1 + nest e)) := by
+    intro l hl
+    have := C20_no_limit_dependence h (.list e l) bs (by simpa [Ty.wf] using hw)
+      (by simp [lims64, hl, hle])
+    rw [footprint_eraseLims, nest_eraseLims] at this
+    simpa [footprint, nest] using this
+  exact ⟨key lim hl, key lim' hl'⟩
+
+/-- the theorem has content: the ORIGINAL upstream complex-list decoder (no `firstOffset ≤ scope`
+    check before `make([]uint32, firstOffset/4)`) requests ≥ 2^28 units for FOUR input bytes
+    when the limit is 2^40 … -/
+theorem C20_counterexample_unrepaired :
+    (listVarCostUnrepaired (2 ^ 40) (DR.new [0xfc, 0xff, 0xff, 0xff] 4)).cost ≥ 2 ^ 28 := by
+  decide
+
+/-! ### non-vacuity -/
+
+def h0 : HashFn := fun a b => (a ++ b).take 32
+def T : Ty := .list (.list (.uint 1) (2 ^ 40)) (2 ^ 40)
+
+/-- … while the repaired decoder rejects the same four bytes without allocating -/
+example : (decodeC h0 T (DR.new [0xfc, 0xff, 0xff, 0xff] 4)).1.toBool = false ∧
+    (decodeC h0 T (DR.new [0xfc, 0xff, 0xff, 0xff] 4)).2 = 0 := by decide
+
+example : T.wf = true ∧ lims64 T = true ∧ isLeafTy T = false := by decide
+/-- an accepted input (two inner lists `[1]`, `[2,3]`): 8075 units, bound 2293760 -/
+example : (decodeC h0 T (DR.new [8, 0, 0, 0, 9, 0, 0, 0, 1, 2, 3] 11)).1.toBool = true ∧
+    (decodeC h0 T (DR.new [8, 0, 0, 0, 9, 0, 0, 0, 1, 2, 3] 11)).2 = 8075 ∧
+    costBound T 11 = 2293760 := by decide
+/-- a rejected input that allocated before failing (second offset beyond the scope) -/
+example : (decodeC h0 T (DR.new [8, 0, 0, 0, 200, 0, 0, 0, 1, 2, 3] 11)).1.toBool = false ∧
+    0 < (decodeC h0 T (DR.new [8, 0, 0, 0, 200, 0, 0, 0, 1, 2, 3] 11)).2 := by decide
+example : footprint T = 3 ∧ maxDepth T = 79 ∧ nest T = 2 := by decide
+
+/-- why `maxDepth` counts one per nesting level on top of the subtree depths: every subtree of
+    `Vector[Vector[Vector[uint8,1],1],1]` has depth 0, yet its single input byte pays a reader, a
+    view and two slice slots at each complex level: 256 more units per level of nesting -/
+example : (decodeC h0 (.vector (.vector (.vector (.uint 1) 1) 1) 1) (DR.new [7] 1)).2 = 689 ∧
+    (decodeC h0 (.vector (.vector (.vector (.vector (.uint 1) 1) 1) 1) 1) (DR.new [7] 1)).2 = 945 ∧
+    seriesDepth (.vector (.vector (.uint 1) 1) 1) 1 = 0 ∧ seriesDepth (.vector (.uint 1) 1) 1 = 0 ∧
+    seriesDepth (.uint 1) 1 = 0 ∧ maxDepth (.vector (.vector (.vector (.uint 1) 1) 1) 1) = 3 := by
+  decide
+example : eraseLims T = .list (.list (.uint 1) 0) 0 := by simp [T, eraseLims]
+
+
+/-! ### the flat decoder -/
+
+/-- the instrumented flat twin computes exactly the validated flat decoder -/
+theorem C20_flat_twin_is_decoder (t : Ty) (prior : Val) (dr : DR) :
+    (Flat.flatDecodeC t prior dr).1 = Flat.flatDecode t prior dr :=
+  FlatCostProofs.flatDecodeC_fst t prior dr
+
+/-- C20, flat decoder (`ZtypV.FlatCostProofs.C20_flat_full`): for every well-formed type, every
+    prior content of the destination and every byte string — accepted or rejected — the units
+    allocated by one `Deserialize` call are at most `512 · (len + 1) · flatFootprint t · (1 + nest t)`:
+    no list limit, no offset value. -/
+theorem C20_flat (t : Ty) (prior : Val) (bs : Bytes) (hw : t.wf = true) :
+    (Flat.flatDecodeC t prior (DR.new bs bs.length)).2 ≤
+      512 * (bs.length + 1) * Flat.flatFootprint t * (1 + nest t) :=
+  FlatCostProofs.C20_flat t prior bs hw
+
+/-- accepted inputs: the structural rate times the length, nothing else -/
+theorem C20_flat_accepted (t : Ty) (prior : Val) (bs : Bytes) (hw : t.wf = true) (v : Val) (dr' : DR)
+    (hr : (Flat.flatDecodeC t prior (DR.new bs bs.length)).1 = .ok (v, dr')) :
+    (Flat.flatDecodeC t prior (DR.new bs bs.length)).2 ≤ Flat.flatRate t * bs.length :=
+  FlatCostProofs.C20_flat_ok t prior bs hw v dr' hr
+
+/-- a caller may declare a scope larger than the input (`NewDecodingReader(input, scope)`): the
+    allocation then follows the DECLARED scope (`ByteList`/`BitList`/`List` size by `dr.Scope()`) -/
+theorem C20_flat_declared_scope (t : Ty) (prior : Val) (bs : Bytes) (scope : Nat) (hw : t.wf = true) :
+    (Flat.flatDecodeC t prior (DR.new bs scope)).2 ≤
+      Flat.flatRate t * min scope bs.length + Flat.flatRate t * scope + 128 * Flat.flatFootprint t :=
+  FlatCostProofs.C20_flat_declared_scope t prior bs scope hw
+
+/-- the structural rate in closed form: limits do not occur -/
+theorem C20_flat_rate_closed (t : Ty) : Flat.flatRate t ≤ (168 + 64 * footprint t) * (1 + nest t) :=
+  FlatCostProofs.rate_closed t
+
+/-- the ORIGINAL upstream `DecodingReader.List` (no `firstOffset ≤ scope` check before
+    `make([]uint64, 0, firstOffset/4)`): ≥ 2^28 units for four input bytes -/
+theorem C20_flat_counterexample_unrepaired :
+    2 ^ 28 ≤ (Flat.listOffsetsCostUnrepaired (2 ^ 30) (DR.new [0xfc, 0xff, 0xff, 0xff] 4)).cost :=
+  FlatCostProofs.listOffsets_unrepaired_cost
+
+/-- … the repaired one rejects them without allocating; an accepted and a rejected run of
+    `Container{uint16, List[uint16,4]}` -/
+example : (Flat.flatDecodeC (.list (.list (.uint 8) 4) (2 ^ 30)) Val.none
+    (DR.new [0xfc, 0xff, 0xff, 0xff] 4)).2 = 0 := FlatCostProofs.list_repaired_cost
+example : (Ty.container [.uint 2, .list (.uint 2) 4]).wf = true := by decide
+example : (Flat.flatDecodeC (.container [.uint 2, .list (.uint 2) 4]) Val.none
+      (DR.new [1, 0, 6, 0, 0, 0, 2, 0, 3, 0] 10)).1.toBool = true ∧
+    0 < (Flat.flatDecodeC (.container [.uint 2, .list (.uint 2) 4]) Val.none
+      (DR.new [1, 0, 6, 0, 0, 0, 2, 0, 3, 0] 10)).2 := by decide
+example : (Flat.flatDecodeC (.container [.uint 2, .list (.uint 2) 4]) Val.none
+      (DR.new [1, 0, 7, 0, 0, 0, 2, 0, 3, 0] 10)).1.toBool = false := by decide
+
 end ZtypV.Props.C20
